@@ -5,9 +5,10 @@
    Part 2 restates the theorems of Cop.Spec.{ConstantLaw,Uniform,KDE} about the GENERATED definitions.
    Oracles: ndtr = Phi (Section variable, hypotheses named per theorem); scipy's pdf/cdf/ppf/logpdf of the
    six delegated families are not modelled (the laws of those families are scipy's: label `partial`). *)
-From Coq Require Import Reals List Bool String Lra.
+From Coq Require Import Reals List Bool String Lra PeanoNat.
 From Coquelicot Require Import Coquelicot.
 From Cop Require Import Lib.NumpyR Model.Univariate Spec.ListBounds Spec.ConstantLaw Spec.Uniform Spec.KDE.
+From Cop Require Model.RootFind Spec.RootFindR.
 From CopRun Require Import Gen_univ.
 Import ListNotations.
 Open Scope string_scope.
@@ -279,12 +280,14 @@ End KDE_CDF.
 
 (* ---- GaussianKDE: percent_point ---- *)
 Theorem C03_kde_ppf_routing lo hi us :
+  (forall ndim, gen_kde_ppf_shape_error ndim = true <-> (1 < ndim)%nat) /\        (* 2-d input: ValueError *)
   (gen_kde_ppf_range_error us = true <-> exists u, In u us /\ (1 < u \/ u < 0)) /\
   (forall u, u <= EPSILON -> gen_kde_route_one lo hi u = Some RouteNegInf) /\
   (forall u, EPSILON < u -> 1 - EPSILON <= u -> gen_kde_route_one lo hi u = Some RoutePosInf) /\
   (forall u, EPSILON < u < 1 - EPSILON -> gen_kde_route_one lo hi u = Some (RouteRoot lo hi u)) /\
   (forall u, gen_kde_route_one lo hi u <> None).
 Proof.
+  split; [intros ndim; unfold gen_kde_ppf_shape_error; apply Nat.ltb_lt|].
   split.
   - rewrite <- (kde_ppf_route_error lo hi us), bridge_kde_ppf_route.
     destruct (gen_kde_ppf_range_error us); split; intros; try reflexivity; discriminate.
@@ -354,6 +357,44 @@ Proof.
   - apply (kde_root_exists Phi Hc pts (sqrt cov00) lo hi Hlh).
   - intros Hs. apply (kde_quantile_mono_Phi Phi pts (sqrt cov00) lo Hw Hh Hs).
 Qed.
+(* the solver step (C18, bisection instance over R): for probabilities routed to the root finder whose bracket is
+   valid (u <= F hi), the vectorised bisection accepts the batch and every returned point lies in the bracket
+   within max(tol, (hi-lo)/2^maxiter)/2 of an exact quantile F z = u *)
+Theorem C03_kde_ppf_solved maxiter tol us :
+  (forall x, continuous Phi x) -> lo <= hi -> us <> [] ->
+  (forall u, In u us -> EPSILON < u /\ u <= F hi) ->
+  let fs := map (fun u => gen_kde_ppf_objective F u) us in
+  exists r, RootFind.bisect_fun RootFindR.RA maxiter tol fs (map (fun _ => lo) us) (map (fun _ => hi) us) = Some r /\
+    List.length r = List.length us /\
+    forall i u, nth_error us i = Some u ->
+      exists x, nth_error r i = Some x /\ lo <= x <= hi /\
+        exists z, lo <= z <= hi /\ F z = u /\ Rabs (x - z) <= Rmax tol ((hi - lo) / 2 ^ maxiter) / 2.
+Proof.
+  intros Hc Hlh Hne Hus fs.
+  destruct (RootFindR.bisect_accepts maxiter tol fs (map (fun _ => lo) us) (map (fun _ => hi) us)) as (r & Hr & Hlen).
+  - unfold fs. rewrite !map_length. reflexivity.
+  - unfold fs. rewrite !map_length. reflexivity.
+  - unfold fs. destruct us; [congruence | discriminate].
+  - intros i f a b Hf Ha Hb. unfold fs in Hf. rewrite nth_error_map in Hf.
+    destruct (nth_error us i) as [u|] eqn:Eu; [|discriminate]. inversion Hf; subst f.
+    rewrite nth_error_map, Eu in Ha, Hb. inversion Ha; inversion Hb; subst a b.
+    destruct (Hus u (nth_error_In _ _ Eu)) as [H1 H2].
+    apply (proj2 (C03_kde_bracket_iff u H1) H2).
+  - exists r. split; [exact Hr|]. split; [rewrite Hlen; unfold fs; apply map_length|].
+    intros i u Eu.
+    destruct (RootFindR.bisect_correct maxiter tol fs (map (fun _ => lo) us) (map (fun _ => hi) us) r i
+                (gen_kde_ppf_objective F u) lo hi Hr) as (x & Hx & Hin & Hroot).
+    + unfold fs. rewrite nth_error_map, Eu. reflexivity.
+    + rewrite nth_error_map, Eu. reflexivity.
+    + rewrite nth_error_map, Eu. reflexivity.
+    + exact Hlh.
+    + exists x. split; [exact Hx|]. split; [exact Hin|].
+      destruct Hroot as (z & Hz & Hfz & Hd).
+      * intros y _. unfold gen_kde_ppf_objective.
+        apply continuity_pt_minus; [|apply continuity_pt_const; intros ? ?; reflexivity].
+        apply (kde_cdf_continuity Phi Hc pts (sqrt cov00) lo).
+      * exists z. split; [exact Hz|]. split; [unfold gen_kde_ppf_objective in Hfz; lra | exact Hd].
+Qed.
 End KDE_PPF.
 
 (* ---- non-vacuity ---- *)
@@ -378,4 +419,5 @@ Print Assumptions C03_kde_ppf_routing.
 Print Assumptions C03_kde_bracket_partial.
 Print Assumptions C03_kde_bracket_refuted.
 Print Assumptions C03_kde_quantile.
+Print Assumptions C03_kde_ppf_solved.
 Print Assumptions bridge_check_constant_value.
